@@ -62,7 +62,11 @@ func BuildWorlds(cfg Config, prop string, nFix, nSyn, rejectPct int, rich bool, 
 				opts.ForceHooks = true
 			case 1:
 				opts.Nested = true
+				opts.NoSiblings = true
 			case 2:
+				opts.SetupName = "user.gorm.go"
+				opts.DotGoDir = true
+			case 3:
 				opts.SetupName = "catalog.go"
 			}
 			nAcc++
